@@ -12,7 +12,7 @@ pub fn files_json(c: &gen_::Cfg) -> Value {
     let ob = |s: &Option<String>| match s { Some(x) => json!({"some": x.as_bytes()}), None => json!({"none": true}) };
     Value::Array(c.files.iter().map(|f| json!({
         "dest": f.dest.as_bytes(),
-        "mode": match (f.mode_wide, f.mode) { (Some(w), _) => json!({"some": (w as u32) & 0xFFFF}), (None, Some(m)) => json!({"some": m}), (None, None) => json!({"none": true}) },
+        "mode": match (f.mode, f.mode_wide) { (Some(m), _) => json!({"some": m}), (None, Some(w)) => json!({"some": (w as u32) & 0xFFFF}), (None, None) => json!({"none": true}) },
         "src_exec": f.src_exec, "src_mode": 0o100000 | gen_::src_perm(f), "user": ob(&f.user), "group": ob(&f.group), "flags": f.flags,
         "caps": ob(&f.caps), "link": ob(&f.link), "mtime": [f.mtime >> 16, f.mtime & 0xFFFF],
         "len": f.len, "sha256": hex(&Sha256::digest(gen_::content(f.len, f.compressible, f.seed))),
